@@ -67,6 +67,7 @@ type Unit struct {
 	arithChecked bool
 	quantOK   bool
 	sliceConstLen map[string]int
+	usedInvs  map[string]bool
 }
 
 func (u *Unit) fact(f string) {
@@ -736,7 +737,88 @@ func (fr *Frame) derefBase(p *Val, st *State, pos token.Pos, what string) *Val {
 	if !fr.knownNonNil(p.T) {
 		u.oblige(fr, st, "nil", what, fmt.Sprintf("(distinct %s nil)", p.T), pos, "nil pointer dereference")
 	}
-	return u.addrOfPtr(p)
+	a := u.addrOfPtr(p)
+	fr.assumeCellInv(a, st)
+	return a
+}
+
+// assumeCellInv: the declared type invariant holds for cells that existed before the call
+func (fr *Frame) assumeCellInv(a *Val, st *State) {
+	u := fr.u
+	if len(a.Sels) != 0 || a.Cell == nil {
+		return
+	}
+	n, ok := a.Cell.(*types.Named)
+	if !ok || n.Obj().Pkg() == nil {
+		return
+	}
+	key := n.Obj().Pkg().Name() + "." + n.Obj().Name()
+	invs := u.eng.contracts.invs[key]
+	if len(invs) == 0 {
+		return
+	}
+	h := u.heapOf(st, a.Heap)
+	ck := "inv:" + h + "@" + a.Ref
+	if u.frameDone[ck] {
+		return
+	}
+	u.frameDone[ck] = true
+	cell := term(u.sel1(h, a.Ref), a.Cell)
+	u.assumeInv(fr, invs, cell, st, fmt.Sprintf("(and (distinct %s nil) (< (birth %s) %s))", a.Ref, a.Ref, u.entryNow))
+}
+
+func (u *Unit) assumeInv(fr *Frame, invs []*TypeInv, v *Val, st *State, guard string) {
+	for _, ti := range invs {
+		func() {
+			defer func() {
+				if r := recover(); r != nil {
+					if ee, ok := r.(evalError); ok {
+						u.note("type invariant could not be evaluated: " + ti.TypeName + ": " + ee.msg)
+						return
+					}
+					panic(r)
+				}
+			}()
+			env := &Env{vars: map[string]*Val{ti.Var: v}, pkg: u.eng.pkgByName(ti.Pkg)}
+			f := fr.evalBool(ti.Body, env, st, st)
+			if strings.Contains(f, "(forall") && !u.quantOK {
+				return
+			}
+			u.usedInvs[ti.TypeName+": "+ti.Body.src] = true
+			u.fact(implies(guard, f))
+		}()
+	}
+}
+
+// invsFor: invariants declared for a (named) struct type
+func (u *Unit) invsFor(t types.Type) []*TypeInv {
+	n, ok := t.(*types.Named)
+	if !ok || n.Obj().Pkg() == nil {
+		return nil
+	}
+	return u.eng.contracts.invs[n.Obj().Pkg().Name()+"."+n.Obj().Name()]
+}
+
+// nonnilElem: values of this type read from pre-existing containers are declared non-nil
+func (u *Unit) nonnilElem(t types.Type) bool {
+	for k := range u.eng.contracts.nonnil {
+		parts := strings.SplitN(k, "::", 2)
+		pkg := u.eng.pkgByName(parts[0])
+		if pkg == nil {
+			continue
+		}
+		if ty, _ := u.eng.resolveTypeQuiet(pkg, parts[1]); ty != nil && types.Identical(ty, t) {
+			return true
+		}
+	}
+	return false
+}
+
+func (u *Unit) nonnilFact(t string, ty types.Type) string {
+	if u.w.sortOf(ty) == "Iface" {
+		return fmt.Sprintf("(distinct (typ %s) T_nil)", t)
+	}
+	return fmt.Sprintf("(distinct %s nil)", t)
 }
 
 func (fr *Frame) knownNonNil(t string) bool {
